@@ -5,8 +5,12 @@
  *  2 influence        one changed byte of any delivered entropy block / fed buffer changes every later fetch (>= 8 bytes)
  *  3 forward security after every init/fetch/feed/reseed/save/load the canonical state, pushed through the reference
  *                     INVERSE 12-round permutation, has a zero rate (bytes 0..7)
- *  4 reseed + status  >= 16384 bytes since the last reseed -> the source is called during the next fetch before output;
- *                     init/reseed/ascon_random status == source health; save/load status as documented in random.h
+ *  4 reseed + status  >= 16384 bytes since the last source draw -> the source is called during the next non-empty fetch before
+ *                     any byte of it is produced; init/reseed/ascon_random status == health of ALL source calls the
+ *                     operation made (at least one); save/load status as documented in random.h
+ * The monitors do not assume how many source calls an operation makes, how many bytes each asks for, or that a reseed
+ * cannot happen early or in the middle of a fetch (none of that is in the property): the source interposer records
+ * where in the current fetch buffer each call happened.
  */
 #include "common.h"
 #include "ascon_ref.h"
@@ -22,8 +26,21 @@ static long gr_attempts;       /* including EINTR/EAGAIN attempts */
 static unsigned gr_fail_mask;  /* bit i: logical call i fails with ENOSYS (i < 32) */
 static unsigned gr_eintr_mask; /* bit i: logical call i is first interrupted (EINTR, then EAGAIN) */
 static int gr_pending_intr;
-static long pert_call = -1; static size_t pert_byte;
+static long pert_call = -1; static size_t pert_byte;   /* perturb byte (pert_byte % n) of logical call pert_call */
 static long gr_bytes_delivered;
+/* position of source calls inside the fetch that is in progress (NULL: no fetch in progress) */
+static const uint8_t *cur_out; static size_t cur_size;
+static int cur_calls; static int cur_first_call_after_output; static size_t cur_last_call_pos_hi;
+#define GPAT_AT(i) ((uint8_t)(GPAT ^ (uint8_t)((i) * 29u)))
+static void note_call_position(void)
+{
+    size_t last = 0;   /* index of the last byte that no longer holds the prefill pattern, plus one */
+    if (!cur_out) return;
+    for (size_t i = cur_size; i > 0; --i) if (cur_out[i - 1] != GPAT_AT(i - 1)) { last = i; break; }
+    if (cur_calls++ == 0) cur_first_call_after_output = last != 0;
+    /* upper bound on the bytes produced so far: a few produced bytes may coincide with the pattern */
+    cur_last_call_pos_hi = last == 0 ? 0 : (last + 4 > cur_size ? cur_size : last + 4);
+}
 
 ssize_t getrandom(void *buf, size_t n, unsigned flags)
 {
@@ -37,16 +54,18 @@ ssize_t getrandom(void *buf, size_t n, unsigned flags)
     }
     gr_pending_intr = 0;
     ++gr_logical;
+    note_call_position();
     if (i < 32 && (gr_fail_mask >> i & 1)) { errno = ENOSYS; return -1; }
     for (size_t j = 0; j < n; ++j) {
         uint64_t x = gr_seed ^ ((uint64_t)i << 32) ^ (j * 0x9e3779b97f4a7c15ULL);
         p[j] = (uint8_t)(vf_splitmix(&x) >> 17);
-        if (i == pert_call && j == pert_byte) p[j] ^= 0x40;
+        if (i == pert_call && j == pert_byte % n) p[j] ^= 0x40;
     }
     gr_bytes_delivered += (long)n;
     return (ssize_t)n;
 }
 static int call_ok(long i) { return !(i < 32 && (gr_fail_mask >> i & 1)); }
+static int calls_ok(long from, long to) { for (long i = from; i < to; ++i) if (!call_ok(i)) return 0; return 1; }
 
 /* ---------------------------------------------------------------- scripted storage */
 static uint8_t st_mem[64];
@@ -120,7 +139,7 @@ static void run_history(const op_t *ops, int nops, uint64_t tape, unsigned fail_
 {
     ascon_random_state_t *st = (ascon_random_state_t *)galloc(sizeof(*st), 1);
     ascon_storage_t sto;
-    long produced = 0;
+    long since = 0;     /* bytes handed out by fetch since the last source call (lower bound when a call happened mid-fetch) */
     memset(t, 0, sizeof(*t));
     memset(&sto, 0, sizeof(sto));
     sto.page_size = 32; sto.erase_size = 32; sto.size = 64; sto.read = st_read; sto.write = st_write;
@@ -130,8 +149,9 @@ static void run_history(const op_t *ops, int nops, uint64_t tape, unsigned fail_
     t->status[0] = ascon_random_init(st);
     t->calls_after[0] = gr_logical;
     if (report) {
-        if (gr_logical != 1) vf_violation("C15", "prng:init:source-calls", "\"calls\":%ld", gr_logical);
-        if ((t->status[0] != 0) != call_ok(0)) vf_violation("C15", "prng:status:init", "\"status\":%d,\"source_ok\":%d,\"history\":\"%s\"", t->status[0], call_ok(0), hist_desc);
+        if (gr_logical < 1) vf_violation("C15", "prng:init:source-calls", "\"calls\":%ld", gr_logical);
+        else if ((t->status[0] != 0) != calls_ok(0, gr_logical)) vf_violation("C15", "prng:status:init", "\"status\":%d,\"source_ok\":%d,\"history\":\"%s\"", t->status[0], calls_ok(0, gr_logical), hist_desc);
+        vf_max("source_calls_per_init", gr_logical);
     }
     check_fs(st, "init", report);
     for (int i = 0; i < nops; ++i) {
@@ -145,15 +165,19 @@ static void run_history(const op_t *ops, int nops, uint64_t tape, unsigned fail_
         case OP_FETCH: {
             uint8_t *out = bigbuf;
             uint64_t d = 1469598103934665603ULL;
-            int expect_reseed = produced >= 16384;
-            memset(out, GPAT, o->size + 8);
+            int expect_reseed = since >= 16384 && o->size > 0;
+            for (size_t z = 0; z < o->size; ++z) out[z] = GPAT_AT(z);
+            memset(out + o->size, GPAT, 8);
+            cur_out = out; cur_size = o->size; cur_calls = 0; cur_first_call_after_output = 0; cur_last_call_pos_hi = 0;
             ascon_random_fetch(st, out, o->size);
+            cur_out = 0;
             if (report && expect_reseed) {
                 vf_count("forced_reseeds_expected", 1);
-                if (gr_logical == c0) vf_violation("C15", "prng:reseed:not-drawn-after-limit", "\"produced\":%ld,\"history\":\"%s\"", produced, hist_desc);
+                if (gr_logical == c0) vf_violation("C15", "prng:reseed:not-drawn-after-limit", "\"produced\":%ld,\"history\":\"%s\"", since, hist_desc);
+                else if (cur_first_call_after_output) vf_violation("C15", "prng:reseed:output-before-draw-after-limit", "\"produced\":%ld,\"history\":\"%s\"", since, hist_desc);
             }
-            if (gr_logical != c0) produced = 0;
-            produced += (long)o->size; if (produced > 16384) produced = 16384;
+            if (report && gr_logical != c0) { vf_count(expect_reseed ? "reseeds_in_fetch_at_limit" : "reseeds_in_fetch_early", 1); if (cur_last_call_pos_hi) vf_count("reseeds_mid_fetch", 1); }
+            if (gr_logical != c0) since = (long)(o->size - cur_last_call_pos_hi); else since += (long)o->size;
             if (report) for (int z = 0; z < 8; ++z) if (out[o->size + z] != GPAT) { vf_violation("C12", "stray-write:prng-fetch", "\"size\":%zu", o->size); break; }
             for (size_t j = 0; j < o->size; ++j) { d ^= out[j]; d *= 1099511628211ULL; }
             memcpy(t->out + t->outlen, out, o->size < 32 ? o->size : 32); t->outlen += o->size < 32 ? o->size : 32;
@@ -163,13 +187,15 @@ static void run_history(const op_t *ops, int nops, uint64_t tape, unsigned fail_
             for (size_t j = 0; j < o->size; ++j) { uint64_t x = tape ^ 0xfeed ^ ((uint64_t)i << 40) ^ j; feedbuf[j] = (uint8_t)(vf_splitmix(&x) >> 9); }
             if (i == pert_feed_op && pert_feed_byte < o->size) feedbuf[pert_feed_byte] ^= 0x01;
             ascon_random_feed(st, feedbuf, o->size);
+            if (gr_logical != c0) since = 0;
             break; }
         case OP_RESEED:
             status = ascon_random_reseed(st);
-            produced = 0;
+            if (gr_logical != c0) since = 0;
             if (report) {
-                if (gr_logical != c0 + 1) vf_violation("C15", "prng:reseed:source-calls", "\"calls\":%ld", gr_logical - c0);
-                else if ((status != 0) != call_ok(c0)) vf_violation("C15", "prng:status:reseed", "\"status\":%d,\"source_ok\":%d,\"history\":\"%s\"", status, call_ok(c0), hist_desc);
+                if (gr_logical < c0 + 1) vf_violation("C15", "prng:reseed:source-calls", "\"calls\":%ld", gr_logical - c0);
+                else if ((status != 0) != calls_ok(c0, gr_logical)) vf_violation("C15", "prng:status:reseed", "\"status\":%d,\"source_ok\":%d,\"history\":\"%s\"", status, calls_ok(c0, gr_logical), hist_desc);
+                vf_max("source_calls_per_reseed", gr_logical - c0);
             }
             break;
         case OP_SAVE: {
@@ -178,10 +204,9 @@ static void run_history(const op_t *ops, int nops, uint64_t tape, unsigned fail_
             if (report) {
                 int want = o->wmode == 0 ? 0 : -1;
                 if (status != want) vf_violation("C15", "prng:status:save_seed", "\"status\":%d,\"documented\":%d,\"write_mode\":%d,\"history\":\"%s\"", status, want, o->wmode, hist_desc);
-                if (st_writes != w0 + 1) vf_violation("C15", "prng:save_seed:writes", "\"writes\":%ld", st_writes - w0);
+                vf_max("storage_writes_per_save_seed", st_writes - w0);
             }
-            if (gr_logical != c0) produced = 0;
-            produced += 32; if (produced > 16384) produced = 16384;
+            if (gr_logical != c0) since = 0;     /* the 32 seed bytes are not counted: the property speaks of output produced, and counting less is the safe side */
             if (t->nsaved < MAXOPS) memcpy(t->saved[t->nsaved++], st_mem, 32);
             memcpy(t->out + t->outlen, st_mem, 32); t->outlen += 32;
             break; }
@@ -193,12 +218,13 @@ static void run_history(const op_t *ops, int nops, uint64_t tape, unsigned fail_
             if (report) {
                 int want = o->rmode == 0 ? 0 : -1;
                 if (status != want) vf_violation("C15", "prng:status:load_seed", "\"status\":%d,\"documented\":%d,\"read_mode\":%d,\"history\":\"%s\"", status, want, o->rmode, hist_desc);
-                if (st_reads != r0 + 1) vf_violation("C15", "prng:load_seed:reads", "\"reads\":%ld", st_reads - r0);
-                if (st_writes != w0 + 1) vf_violation("C15", "prng:load_seed:no-resave", "\"writes\":%ld", st_writes - w0);
-                else if (o->wmode == 0 && memcmp(before, st_mem, 32) == 0) vf_violation("C15", "prng:load_seed:resaved-same-seed", "\"history\":\"%s\"", hist_desc);
-                if (gr_logical != c0 + 1) vf_violation("C15", "prng:load_seed:source-calls", "\"calls\":%ld", gr_logical - c0);
+                /* random.h notes that a loaded seed is replaced in storage and fresh entropy is mixed in; the property does not
+                   constrain either, so they are observations, not verdicts */
+                vf_max("storage_reads_per_load_seed", st_reads - r0);
+                if (st_writes != w0 && o->wmode == 0 && memcmp(before, st_mem, 32) != 0) vf_count("load_seed_replaced_stored_seed", 1);
+                if (gr_logical != c0) vf_count("load_seed_drew_from_source", 1);
             }
-            produced = 32;
+            if (gr_logical != c0) since = 0;
             memcpy(t->out + t->outlen, st_mem, 32); t->outlen += 32;
             break; }
         }
@@ -266,6 +292,13 @@ static void case_history(uint64_t idx)
         long c = (long)rng_below(R, (uint32_t)ncalls);
         int first_after = -1;
         if (!call_ok(c)) continue;
+        {   /* an operation may make several source calls; when one of them fails the operation may legitimately discard
+               what the others delivered, so only perturb calls of operations whose calls all succeeded */
+            int whole = 1;
+            for (int i = -1; i < n; ++i)
+                if (T0.calls_before[i + 1] <= c && c < T0.calls_after[i + 1]) whole = calls_ok(T0.calls_before[i + 1], T0.calls_after[i + 1]);
+            if (!whole) { vf_count("influence_skipped_partial_failure", 1); continue; }
+        }
         pert_call = c; pert_byte = rng_below(R, 32);
         run_history(ops, n, tape, fail, eintr, &T1, 0);
         pert_call = -1;
@@ -273,7 +306,7 @@ static void case_history(uint64_t idx)
         for (int i = 0; i < n; ++i) {
             size_t a = T0.out_at[i], b = T0.out_at[i + 1];
             if (T0.calls_after[i + 1] <= c) { if (memcmp(T0.out + a, T1.out + a, b - a)) vf_violation("C15", "prng:influence:earlier-output-changed", "\"history\":\"%s\"", hist_desc); }
-            else if (ops[i].op == OP_FETCH && ops[i].size >= 8) {
+            else if (ops[i].op == OP_FETCH && ops[i].size >= 8 && T0.calls_before[i + 1] > c) {
                 if (first_after < 0) first_after = i;
                 if (!memcmp(T0.out + a, T1.out + a, b - a))
                     vf_violation("C15", "prng:influence:entropy-byte-ignored", "\"source_call\":%ld,\"byte\":%zu,\"op_index\":%d,\"first_fetch_after\":%d,\"history\":\"%s\"", c, pert_byte, i, first_after, hist_desc);
@@ -322,7 +355,7 @@ static void case_misc(uint64_t idx)
     snprintf(hist_desc, sizeof(hist_desc), "ascon_random(%zu)", n);
     gr_seed = tape; gr_logical = 0; gr_fail_mask = 0; gr_eintr_mask = rng_below(R, 2); gr_pending_intr = 0; pert_call = -1;
     s1 = ascon_random(o1, n);
-    if (!s1 || gr_logical != 1) vf_violation("C15", "prng:status:ascon_random", "\"status\":%d,\"calls\":%ld", s1, gr_logical);
+    if (!s1 || gr_logical < 1) vf_violation("C15", "prng:status:ascon_random", "\"status\":%d,\"calls\":%ld", s1, gr_logical);
     gr_logical = 0; gr_eintr_mask = 0;
     s2 = ascon_random(o2, n);
     if (n && memcmp(o1, o2, n)) vf_violation("C15", "prng:determinism:ascon_random", "\"n\":%zu", n);
@@ -332,7 +365,7 @@ static void case_misc(uint64_t idx)
         ascon_random(o2, n); pert_call = -1;
         if (!memcmp(o1, o2, n)) vf_violation("C15", "prng:influence:ascon_random", "\"n\":%zu,\"byte\":%zu", n, pert_byte);
     }
-    gr_logical = 0; gr_fail_mask = 1;
+    gr_logical = 0; gr_fail_mask = 1;                /* the first source call fails */
     memset(o2, GPAT, n);
     s2 = ascon_random(o2, n);
     if (s2 != 0) vf_violation("C15", "prng:status:ascon_random-failed-source", "\"status\":%d", s2);
